@@ -1355,6 +1355,43 @@ func (ex *Exec) binop(st *State, op token.Token, a, b Val, xt types.Type, rt typ
 		}
 	}
 	isSeq := strings.HasPrefix(at.Sort, "Seq_")
+	// arithmetic of the sized signed integer types (int64, int32, int16, int8) wraps: those are the types values of
+	// unbounded integers are narrowed into (big.Int.Int64()), where an overflow is a wrong amount rather than a crash.
+	// int, uint and the sized unsigned types stay mathematical (stated in the trusted base).
+	if at.Sort == SInt && (op == token.ADD || op == token.SUB || op == token.MUL) {
+		if bk, ok := xt.Underlying().(*types.Basic); ok {
+			bits := 0
+			switch bk.Kind() {
+			case types.Int64:
+				bits = 64
+			case types.Int32:
+				bits = 32
+			case types.Int16:
+				bits = 16
+			case types.Int8:
+				bits = 8
+			}
+			if bits > 0 {
+				var r string
+				switch op {
+				case token.ADD:
+					r = app("+", at.S, bt.S)
+				case token.SUB:
+					r = app("-", at.S, bt.S)
+				default:
+					r = app("imul", at.S, bt.S)
+					if _, ok := parseSmallInt(at.S); ok {
+						r = app("*", at.S, bt.S)
+					} else if _, ok := parseSmallInt(bt.S); ok {
+						r = app("*", at.S, bt.S)
+					}
+				}
+				m := pow2(bits)
+				w := app("mod", r, m)
+				return Term{ite(app(">=", w, pow2(bits-1)), app("-", w, m), w), SInt}
+			}
+		}
+	}
 	switch op {
 	case token.ADD:
 		if at.Sort == SStr {
